@@ -189,9 +189,9 @@ MsWalk(p, o, s, N) ==
             ELSE LET t == MsWalk(p, o + r.consumed, s + 1, N) IN
                  IF t.ok THEN [ok |-> TRUE, first |-> r, durs |-> {du} \cup t.durs] ELSE Bad
 
-\* d0 is the state of the first stream's decoder (all getters of the multistream object read it)
-MsDecodeRes(d0, N, p, fs, fec) ==
-  LET F == Min(fs, MaxFs(d0)) IN          \* a request above 120 ms is clamped (DESIGN S6)
+\* d0 is the state of the first stream's decoder (all getters of the multistream object read it);
+\* F is the capacity handed to the stream decoders
+MsDecodeResF(d0, N, p, fs, fec, F) ==
   IF fs <= 0 \/ p.len < 0 THEN Fail(d0)
   ELSE IF p.len = 0 THEN DecodeResP(d0, TRUE, FALSE, Bad, F, fec)
   ELSE LET w == MsWalk(p, 0, 1, N) IN
@@ -199,6 +199,14 @@ MsDecodeRes(d0, N, p, fs, fec) ==
        ELSE LET du == CHOOSE x \in w.durs : TRUE IN
             IF w.durs # {du} \/ (du * Q(d0)) \div 120 > F THEN Fail(d0)
             ELSE DecodeResP(d0, FALSE, FALSE, w.first, F, fec)
+
+\* the implementation clamps a request above 120 ms to 120 ms (DESIGN S6) ...
+MsDecodeRes(d0, N, p, fs, fec) == MsDecodeResF(d0, N, p, fs, fec, Min(fs, MaxFs(d0)))
+
+\* ... which the property does not demand (it only asks for 0 < n <= frame_size): concealing the whole
+\* request would be as good.  The return values the PROPERTY allows (soundness rule R1):
+MsAllowedRets(d0, N, p, fs, fec) ==
+  MsDecodeRes(d0, N, p, fs, fec).rets \cup MsDecodeResF(d0, N, p, fs, fec, fs).rets
 
 -----------------------------------------------------------------------------
 (* Design theorems (checked by TLC in DecCtl_mc over all call sequences).    *)
